@@ -3,10 +3,13 @@
 
    Vocabulary (Render/CellLayout.v, Render/Writer.v):
      ccell / kind          a cell: face + (character | glyph with size and fallback | image with size)
-     rctx                  glyph capability of the terminal and the char-width oracle (unicode-width)
+     rctx                  glyph capability of the terminal, the char-width oracle (unicode-width), the
+                           automaton of TTYCommandDecoder (ANY automaton: the theorems quantify over it) and
+                           the meaning of SGR sequences as a face transformer (any table)
      wops_run              a client program against TerminalWriter: put_char, put_cell (glyphs, images),
-                           set_face, set_wraps, io::Write::write once per chunk (on the writer and through
-                           utf8_writer()), over a view `sh` of a backing slice `data`
+                           set_face, set_wraps, io::Write::write once per chunk (on the writer itself, through
+                           utf8_writer() and through tty_writer() which also decodes SGR escape
+                           sequences), over a view `sh` of a backing slice `data`
      merge_op              the same operation with all its bytes passed in a single call
      Dead                  the cursor is below the last row of the view (or the view has no column):
                            nothing can be written any more
@@ -139,7 +142,7 @@ Check C09_layout_render : forall (ctx : rctx) (cells : list ccell) (wraps : bool
    characters one by one): the layout as coded before, measuring a glyph as one unbreakable
    cell, loses the tail of a fallback wider than the line ---------- *)
 Definition blank : ccell := mkCell face0 (KChar 32).
-Definition ctx_noglyph : rctx := mkCtx false [].
+Definition ctx_noglyph : rctx := mkCtx false [] dfa0 [].
 Definition glyph_abcdefg : ccell := mkCell face0 (KGlyph 0 1 2 [97; 98; 99; 100; 101; 102; 103]%N).
 
 Lemma C09_unit_layout_refuted :
@@ -160,8 +163,21 @@ Qed.
    three-byte character, a wide character, a tab and a newline *)
 Definition ex_ops : list vop := [OpT; OpView (Rng 1 (-1)) (From 1)].
 Definition ex_prog (chunks : list (list N)) : list wop :=
-  [OFace (mkFace (Some 255%N) None 8%N); OWrite chunks; OChar 28450%N; OChar 9%N; OChar 10%N; OWriteU [[98%N]]].
-Definition ex_ctx : rctx := mkCtx true [(28450%N, 2)].
+  [OFace (mkFace (Some 255%N) None 8%N); OWrite chunks; OChar 28450%N; OChar 9%N; OChar 10%N; OWriteU [[98%N]];
+   OWriteT [[27]; [91; 49]; [109; 99; 27]; [27; 91; 109]]%N].
+(* the automaton of TTYCommandDecoder as dumped from the crate on 2026-10-01 (the correspondence
+   run always uses a fresh dump; this copy only serves the examples) *)
+Definition tr (f : nat) (lo hi : N) (t : nat) : nat * N * N * nat := (f, lo, hi, t).
+Definition ex_dfa : dfa :=
+  mkDfa 0
+    [tr 0 0 26 1; tr 0 27 27 2; tr 0 28 127 1; tr 0 192 223 3; tr 0 224 239 4; tr 0 240 247 5; tr 2 91 91 12; tr 3 128 191 11; tr 4 128 191 9; tr 5 128 191 6; tr 6 128 191 7; tr 7 128 191 8; tr 9 128 191 10; tr 12 48 58 13; tr 12 59 59 14; tr 12 109 109 15; tr 13 48 58 13; tr 13 59 59 14; tr 13 109 109 15; tr 14 48 58 13; tr 14 59 59 14; tr 14 109 109 15]
+    [(false, false, 99); (true, true, 1); (false, false, 99); (false, false, 99); (false, false, 99);
+     (false, false, 99); (false, false, 99); (false, false, 99); (true, true, 1); (false, false, 99);
+     (true, true, 1); (true, true, 1); (false, false, 99); (false, false, 99); (false, false, 99); (true, true, 0)].
+Definition ex_ctx : rctx :=
+  mkCtx true [(28450%N, 2)] ex_dfa
+        [([27; 91; 49; 109]%N, mkFace (Some 255%N) None 8%N, mkFace (Some 255%N) None 8%N);
+         ([27; 91; 109]%N, mkFace (Some 255%N) None 8%N, face0)].
 
 Example C09_contained_nonvacuous :
   Rep 5 6 (apply_chain (of_size 5 6) ex_ops) (win_chain (win_root 5 6) ex_ops) /\
@@ -170,7 +186,8 @@ Example C09_contained_nonvacuous :
                  (ex_prog [[97; 226]; [130; 172]]%N) with
   | Ok (st, flags) =>
       nth_error (kinds (w_data st)) 13 = Some (KChar 8364) /\ nth_error (kinds (w_data st)) 19 = Some (KChar 28450) /\
-      flags = [true; true; true; true; true; true]
+      flags = [true; true; true; true; true; true; true] /\
+      nth_error (kinds (w_data st)) 14 = Some (KChar 99) /\ w_face st = face0
   | _ => False
   end.
 Proof.
@@ -193,7 +210,7 @@ Definition ex_cells : list ccell :=
   [mkCell face0 (KChar 97); mkCell face0 (KChar 98); mkCell face0 (KChar 28450);
    mkCell face0 (KGlyph 0 1 1 [120; 121; 122]%N); mkCell face0 (KChar 10);
    mkCell face0 (KImage 0 2 3); mkCell face0 (KChar 99)]%N.
-Definition ex_ctx2 : rctx := mkCtx false [(28450%N, 2)].
+Definition ex_ctx2 : rctx := mkCtx false [(28450%N, 2)] dfa0 [].
 
 Example C09_layout_render_nonvacuous :
   text_size ex_ctx2 ex_cells true 4 = (4, 4) /\ no_cr ex_ctx2 ex_cells = true /\
